@@ -23,6 +23,7 @@
      Abandon i  : i < nw s /\ ws s i <> WPending                (a future is dropped only once it has completed)
    all_ok es s : every event of es satisfies its guard in the state reached before it.
    all_ok_wf   : the same without the guard on WireOut (write may precede register). *)
+Require Import DV.Spec.Wire DV.Model.Avp DV.Model.Message DV.Model.Stream DV.Model.Server DV.Model.EndToEnd DV.Proofs.StreamFacts DV.Proofs.ServerFacts DV.Proofs.EndToEndFacts.
 Require Import DV.Base.Bytes DV.Model.Client DV.Model.ClientMulti DV.Proofs.ClientFacts DV.Proofs.ClientMultiFacts.
 
 (* For EVERY event list (any interleaving, adversarial peer, ids not assumed distinct): a future that
@@ -146,3 +147,34 @@ Theorem C11_shared_table_repaired_example :
   closed (conn (mrun sched_shared) 1) = true /\ closed (conn (mrun sched_shared) 2) = false.
 Proof. exact shared_table_repaired. Qed.
 Print Assumptions C11_shared_table_repaired_example.
+
+(* The peer as the library's own server (Model/Server.v), one connection, requests sent one after the other: the server
+   reads them from ANY fault-free script, calls the handler once per request in order and writes exactly the answers (C08);
+   a handler that echoes the hop-by-hop id yields answers whose ids survive the wire; the client's future for request i
+   resolves with the i-th frame the server wrote - the handler's answer to request i - and its reader keeps running. *)
+Theorem C11_end_to_end : forall (h : list msg -> msg -> option msg),
+  (forall seen m a, h seen m = Some a -> m_hbh a = m_hbh m) ->
+  forall lim d lim' d' reqs ms bss as' rs wscript,
+  fault_free rs = true -> bytes_of rs = concat reqs -> Forall good_frame reqs ->
+  Forall2 (fun f m => dec_msg lim d f = Ok m) reqs ms ->
+  answer_octets h [] ms = Some bss -> accepting wscript = true ->
+  Forall2 (fun bs a' => dec_msg lim' d' bs = Ok a') bss as' ->
+  NoDup (map m_hbh ms) ->
+  exists o, serve h lim d rs wscript = Some o /\ so_calls o = ms /\ so_written o = concat bss /\ so_res o = SClosed /\
+    map m_hbh as' = map m_hbh ms /\
+    forall i, i < length ms ->
+      ws (run (e2e_sched (map m_hbh ms))) i = WGot {| hop := nth i (map m_hbh as') 0%N; fid := i |} /\
+      closed (run (e2e_sched (map m_hbh ms))) = false.
+Proof. exact end_to_end. Qed.
+Print Assumptions C11_end_to_end.
+
+Theorem C11_end_to_end_example :
+  fault_free ex_rs2 = true /\ bytes_of ex_rs2 = concat [ex_frame; ex_frame2] /\ Forall good_frame [ex_frame; ex_frame2] /\
+  Forall2 (fun f m => dec_msg 5 ex_dict f = Ok m) [ex_frame; ex_frame2] [ex_msg; ex_msg2] /\
+  answer_octets ex_echo [] [ex_msg; ex_msg2] = Some [ex_frame; ex_frame2] /\ accepting ex_ws = true /\
+  Forall2 (fun bs a' => dec_msg 5 ex_dict bs = Ok a') [ex_frame; ex_frame2] [ex_msg; ex_msg2] /\
+  NoDup (map m_hbh [ex_msg; ex_msg2]) /\
+  (forall seen m a, ex_echo seen m = Some a -> m_hbh a = m_hbh m) /\
+  outcomes (run (e2e_sched (map m_hbh [ex_msg; ex_msg2]))) = [WGot {| hop := 7%N; fid := 0 |}; WGot {| hop := 8%N; fid := 1 |}].
+Proof. exact end_to_end_nonvacuous. Qed.
+Print Assumptions C11_end_to_end_example.
